@@ -195,6 +195,9 @@ type eval struct {
 	cat       string // Validate(): the catalogue kind of the value
 	emptyColl string // Validate(): "nil" / "allocated empty" if the value is a slice or map without elements
 
+	nullElem      bool // the value is what an explicit null element of a list / entry of a map stands for
+	tagOnUnpacker bool // a tag on a field whose type (through pointers) unpacks itself
+
 	below bool // not a validator but a place: an error naming a path below it is about it as well (see runCall)
 }
 
@@ -214,6 +217,7 @@ type pos struct {
 	ifaceDirect bool
 	onIface     bool
 	noInit      bool // below an interface-held value the configuration does not mention: no InitDefaults is run there
+	null        bool // the setting at this position is an explicit null
 	set         bool // the configuration has a setting at this position (an explicit nil included; for the elements of a list: the list has one)
 }
 
@@ -271,13 +275,14 @@ func (w *walker) at(p pos, seg string, raw *gen.Tree) pos {
 		q.alts = append(q.alts, []string{nm})
 	}
 	q.set = raw != nil
+	q.null = raw != nil && raw.K == "nil"
 	return q
 }
 
 func (w *walker) add(p pos, what string, ok, soft bool) {
 	w.evals = append(w.evals, eval{path: p.path, alts: p.alts, what: what, ok: ok, soft: soft,
 		fromCfg: p.cfg != nil, initDef: p.initDef && p.cfg == nil, viaPtr: p.viaPtr, inColl: p.inColl, inInline: p.inInline,
-		partial: p.partial && p.cfg == nil, onInline: p.onInline, numKind: p.numKind, viaIface: p.viaIface, ifaceDirect: p.ifaceDirect, onIface: p.onIface})
+		partial: p.partial && p.cfg == nil, nullElem: p.null && p.inColl, onInline: p.onInline, numKind: p.numKind, viaIface: p.viaIface, ifaceDirect: p.ifaceDirect, onIface: p.onIface})
 	if what == "Validate()" && p.ifaceDirect && !ok {
 		w.d59 = true
 	}
@@ -425,6 +430,9 @@ func (w *walker) walk(td *gen.TD, v reflect.Value, p pos) {
 				tq.onIface = f.T.Kind == "iface"
 				_, tq.numKind, _ = tagCandidates(f.T)
 				w.add(tq, t.String(), refTag(t, fv), false)
+				if base, _ := stripPtr(f.T); selfUnpacking[catBase(base.Kind)] != "" {
+					w.evals[len(w.evals)-1].tagOnUnpacker = true
+				}
 				w.elemLevel(f.T, fv, t, q)
 			}
 			w.walk(f.T, fv, q)
